@@ -8,6 +8,7 @@ Markup trust inventory - every ``Markup(...)`` construction of the package is an
 safe API, rendered output, template text, or wraps a value the trust flow proves escaped or
 literal (utils.urlize's return value included); capture sites mark content safe exactly
 under autoescape; xmlattr / urlize return Markup only when autoescaping.
+Also: one EvalContext(environment, name) per template, every Frame built from it.  
 Not decided: the semantics of every filter on every value.
 """
 
